@@ -18,7 +18,7 @@ EXPLANATION = (
     "has_impl is partially evaluated per (kind x newtype constraint x trait); wherever it can be true for a named kind, the "
     "emitter's arm for that cell contains an `impl <trait> for #type_name` template under the same guard (default present / "
     "bespoke impl flag / inner type has the impl); for built-in kinds a may-be-true answer must be a trait std implements for "
-    "that type; (D2) builder() answers Some under `struct_builder && Struct` and the struct emitter adds the builder item under "
+    "that type, and for arrays and tuples (Default only up to [T; 32] / 12 items) it must read the array's own length / the tuple's id vector under a comparison; (D2) builder() answers Some under `struct_builder && Struct` and the struct emitter adds the builder item under "
     "the same setting with the same path; (D3) the projections iterate details.properties / details.variants / details.type_id "
     "without filtering and ident()/name() call the renderer the emitters use; (W1) templates and literals naming an external "
     "crate are reachable only through IR cells whose every construction site sets the corresponding uses_* flag; (W2) the "
